@@ -79,7 +79,10 @@ def unchanged(x, s):
 def cmp(got, want):
     """clauses of 'equals the dense result, with its shape and real/complex kind' violated by got (carrier, array or scalar)"""
     isd = isinstance(got, D)
-    X = got.todense() if isd else np.asarray(got)
+    try:
+        X = got.todense() if isd else np.asarray(got)
+    except Exception as e:
+        return ['todense() raises %s: %s' % (type(e).__name__, str(e)[:100])]
     W = np.asarray(want)
     if X.shape != W.shape:
         return ['shape: got %s, dense gives %s' % (X.shape, W.shape)]
@@ -208,7 +211,10 @@ def run(q, key, setup, op, results, operands, what, hint=None, probe=True, guard
     except Exception as e:
         q.fail(f'{what}: raises {type(e).__name__}: {str(e)[:160]}', key, None, replay, finding=hint.get('raise'))
         return None
-    fails = ns['verify'](ns, results, operands, ns['_snaps'], probe)
+    try:
+        fails = ns['verify'](ns, results, operands, ns['_snaps'], probe)
+    except Exception as e:
+        fails = [('?', f'comparison raises {type(e).__name__}: {str(e)[:160]}')]
     for nm, b in fails:
         fid = None
         for pre, f in hint.items():
